@@ -21,7 +21,7 @@ EXPLANATION = (
     "compared; the run is single-path (a branch on a symbolic value aborts it), so the verdict is independent of operand values; no SMT query is "
     "needed for the frame condition itself (object identity), the solver's part is the value-independence argument"
 )
-BOUNDS = {"backends": "object backend (NumPy structured arrays of symbolic scalars: C03/C17 lane); float64 buffer aliasing and Awkward are not reachable"}
+BOUNDS = {"backends": "object backend and NumPy lane (structured arrays of dtype object holding symbolic scalars; kernels see an element-wise container with ndarray in-place semantics); float64 buffer aliasing outside kernels and Awkward are not reachable"}
 TRUSTED = ["single-path symbolic execution (symx.core: SymbolicBranch on any value-dependent branch)", "snapshot = class + ids of coordinate containers and stored objects"]
 
 
@@ -37,8 +37,20 @@ def _wrap(fn):
     return g
 
 
+def _wrap_arrays(fn):
+    """NumPy lane: keep the frame goals of the array operands (snapshot of class, dtype, shape and the
+    identity of every element of every field before and after the calls)"""
+
+    def g(R):
+        goals = fn(R)
+        kept = [(l, x) for l, x in goals if l.startswith("frame:") or "operands-unmodified" in l]
+        return kept + [("executed", G.true(True, f"{len(goals) - len(kept)} value goals of the source obligation discarded"))]
+
+    return g
+
+
 def families(tier="quick"):
-    from . import c02, c04, c05, c09, c10, c11, c12, c13
+    from . import c02, c03, c04, c05, c09, c10, c11, c12, c13, c17
 
     fams = []
     for mod in (c02, c04, c05, c10, c11, c12, c13, c09):
@@ -48,4 +60,9 @@ def families(tier="quick"):
             if mod is c12 and "/float64/" in f.key:
                 continue
             fams.append(Family(f"{PID}/{f.key}", _wrap(f.fn), defd=False, functions=f.functions, structural=True, hard_s=300))
+    for mod in (c03, c17):
+        for f in mod.families(tier):
+            if f.key.endswith("/empty"):
+                continue
+            fams.append(Family(f"{PID}/{f.key}", _wrap_arrays(f.fn), defd=False, functions=f.functions, structural=True, hard_s=300))
     return fams
